@@ -249,3 +249,67 @@ func c07LowLimits(c *fw.Ctx) {
 		c07Call(c, fmt.Sprintf("NewCTEDecoder.DecodeDocument(low-limits,rules=%v)", withRules), in, func() (interface{}, error) { return nil, ce.NewCTEDecoder(cfg).DecodeDocument(doc, mk()) })
 	}
 }
+
+// C07 family "self-referential": documents whose marked container holds a reference to itself (allowed when
+// Rules.AllowRecursiveLocalReferences is set, or with rules off), with further references to the same marker landing in
+// destinations that cannot hold a container. Building, failing and REPORTING the failure must all terminate: an error
+// message that prints a cyclic value with %v recurses until the process dies.
+type c07RecA struct {
+	A []interface{}
+	B int
+}
+type c07RecB struct {
+	A []interface{}
+	B string
+}
+type c07RecC struct {
+	A map[string]interface{}
+	B float64
+	C bool
+}
+type c07RecD struct {
+	A interface{}
+	B uint8
+	C []int
+}
+
+func c07Recursive(c *fw.Ctx) {
+	r := c.Rng
+	texts := []string{`{"a"=&x:[1 $x] "b"=$x}`, `{"a"=&x:[$x] "b"=$x}`, `{"a"=&x:{"k"=$x "j"=1} "b"=$x "c"=$x}`, `[&x:[$x $x] $x]`, `&x:[$x]`,
+		`{"a"=&x:[[$x]] "b"=$x "c"=$x}`, `{"b"=$x "a"=&x:[1 $x]}`, `[&x:{"a"=$x} {"b"=$x}]`, `{"a"=&x:(1 $x) "b"=$x}`}
+	text := "c0 " + texts[r.Intn(len(texts))]
+	cfg := configuration.New()
+	desc := text
+	if r.Intn(2) == 0 {
+		cfg.Rules.AllowRecursiveLocalReferences = true
+		desc += " allow-recursive"
+	} else {
+		cfg.Marshal.EnforceRules = false
+		desc += " rules-off"
+	}
+	doc := []byte(text)
+	if r.Intn(2) == 0 {
+		// the CBE twin (converted without a validator in front)
+		var buf bytes.Buffer
+		enc := ce.NewCBEEncoder(cfg)
+		enc.PrepareToEncode(&buf)
+		if p, _ := fw.Guard(func() { _ = ce.NewCTEDecoder(cfg).DecodeDocument(doc, enc) }); p == nil && buf.Len() > 2 {
+			doc = append([]byte{}, buf.Bytes()...)
+			desc += " as-cbe"
+		}
+	}
+	c.Note("C07 self-referential %s", desc)
+	c.Inc("inputs")
+	c.Inc("family.self-referential")
+	c.Distinct("self-referential:" + desc)
+	for ti, tmpl := range []interface{}{c07RecA{}, c07RecB{}, c07RecC{}, c07RecD{}, nil, []interface{}(nil), map[string]interface{}(nil), []int(nil), "", 0} {
+		tmpl := tmpl
+		c.Region(fmt.Sprintf("self-referential-tmpl%d", ti))
+		c07Call(c, fmt.Sprintf("UnmarshalFromCEDocument(%T)", tmpl), desc, func() (interface{}, error) { return ce.UnmarshalFromCEDocument(doc, tmpl, cfg) })
+		if doc[0] == 0x81 {
+			c07Call(c, fmt.Sprintf("UnmarshalFromCBEDocument(%T)", tmpl), desc, func() (interface{}, error) { return ce.UnmarshalFromCBEDocument(doc, tmpl, cfg) })
+		} else {
+			c07Call(c, fmt.Sprintf("UnmarshalFromCTEDocument(%T)", tmpl), desc, func() (interface{}, error) { return ce.UnmarshalFromCTEDocument(doc, tmpl, cfg) })
+		}
+	}
+}
